@@ -68,6 +68,16 @@ let expected (inp : string list) (out : string) : string =
     (* whole-block accumulation run repeatedly from the same prior state: the property is that every run
        equals every other, so the expectation repeats the first run *)
     let first, _ = section "RUN" out in
+    (* the θ′ of the run must itself be the canonical (service, hash)-ordered sequence of its pairs *)
+    let first =
+      try
+        let th = kvget "theta" first in
+        let pairs = List.map (fun s -> match String.split_on_char ':' s with
+            | [ a; hx ] -> (n_of_string a, bytes_of_hex hx) | _ -> failwith "theta") (csv th) in
+        let canon = join (fun (s, hx) -> string_of_n s ^ ":" ^ hex_of_bytes hx) (theta_of pairs) in
+        if canon = th then first
+        else String.concat " " (List.map (fun t -> if String.length t > 6 && String.sub t 0 6 = "theta=" then "theta=" ^ canon else t) (split_ws first))
+      with Not_found -> first in
     String.concat " " (List.init (int_of_string runs) (fun _ -> "RUN{" ^ first ^ "}"))
   | _ -> "BADCASE"
 let () =
